@@ -156,12 +156,18 @@ var wListeners []*wListener
 // the host under /host, a path of the host is visible to the plugin under /plug
 var wNamespaces bool
 
+// Of the HOST's files only the directory the runner was given for sockets is shared with the plugin's namespace.
+var wSharedDir string
+
 func wVisible(l *wListener, from int) string {
 	if !wNamespaces || l.owner == from || l.addr.network != "unix" {
 		return l.addr.addr
 	}
 	if from == 0 {
 		return "/host" + l.addr.addr
+	}
+	if l.owner == 0 && wSharedDir != "" && !strings.HasPrefix(l.addr.addr, wSharedDir+"/") {
+		return "\x00not visible from the plugin's namespace: " + l.addr.addr
 	}
 	return "/plug" + l.addr.addr
 }
